@@ -40,6 +40,7 @@ class Entry:
     seed: int = 0
     min_zhw: Callable[[int, int, int], bool] = lambda z, h, w: True   # 3-D kinds
     finding: str = ""                 # non-empty: this configuration is a known/pending finding of that class
+    tier: str = "quick"               # "thorough": only exercised in the thorough tier
 
     def admissible(self, h: int, w: int, z: int | None = None) -> bool:
         if self.kind in ("den3d", "recon3d"):
@@ -215,6 +216,8 @@ def denoisers() -> list[Entry]:
         E.append(Entry(f"UnetModel2d/L{L}", "unet2d", "den2d",
                        lambda L=L: UnetModel2d(2, 2, 2, L, 0.0), "chw", min_hw=unet_ok(L),
                        min_note="h, w >= 2^L and bottleneck not 1x1 (instance norm)", tags=("unet", f"L{L}")))
+    E.append(Entry("UnetModel2d/L2/dropout", "unet2d", "den2d", lambda: UnetModel2d(2, 2, 2, 2, 0.5), "chw", min_hw=unet_ok(2),
+                   tags=("unet", "dropout")))
     for L in (1, 2, 4):
         E.append(Entry(f"NormUnetModel2d/L{L}", "unet2d", "den2d",
                        lambda L=L: NormUnetModel2d(2, 2, 2, L, 0.0), "chw", min_hw=normunet_ok(L),
@@ -312,6 +315,13 @@ def recons() -> list[Entry]:
                                    fwd, bwd, num_filters=2, num_pool_layers=2, dropout_probability=0.0, skip_connection=skip,
                                    normalized=normalized, image_initialization=init),
                                "image", _c_ks, min_hw=nu if normalized else u2, tags=("unet",)))
+    E.append(Entry("Unet2d/norm/sense/dropout", "unet2d", "recon",
+                   lambda: Unet2d(fwd, bwd, num_filters=2, num_pool_layers=2, dropout_probability=0.4, normalized=True,
+                                  image_initialization="sense"), "image", _c_ks, min_hw=nu, tags=("unet", "dropout")))
+    E.append(Entry("EndToEndVarNet/dropout", "varnet", "recon",
+                   lambda: EndToEndVarNet(fwd, bwd, num_layers=2, regularizer_num_filters=2, regularizer_num_pull_layers=2,
+                                          regularizer_dropout=0.5),
+                   "kspace", _c_kms, min_hw=u2, coil_invariant=False, tags=("unet", "dropout")))
     # ---- EndToEndVarNet
     E.append(Entry("EndToEndVarNet", "varnet", "recon",
                    lambda: EndToEndVarNet(fwd, bwd, num_layers=2, regularizer_num_filters=2, regularizer_num_pull_layers=2),
@@ -386,6 +396,9 @@ def recons() -> list[Entry]:
                        lambda norm=norm: JointICNet(fwd, bwd, num_iter=2, use_norm_unet=norm, **jkw), "image", _c_kms,
                        min_hw=nu if norm else u2, tags=("normunet" if norm else "unet",)))
     # ---- MultiDomainNet
+    E.append(Entry("MultiDomainNet/std/dropout", "multidomainnet", "recon",
+                   lambda: MultiDomainNet(fwd, bwd, standardization=True, num_filters=4, num_pool_layers=2, dropout_probability=0.3),
+                   "kspace", _c_ks, min_hw=u2, coil_invariant=False, tags=("unet", "multidomain", "dropout")))
     for std in (True, False):
         E.append(Entry(f"MultiDomainNet/{'std' if std else 'nostd'}", "multidomainnet", "recon",
                        lambda std=std: MultiDomainNet(fwd, bwd, standardization=std, num_filters=4, num_pool_layers=2),
@@ -472,15 +485,138 @@ def recons3d() -> list[Entry]:
     return E
 
 
-def zoo() -> list[Entry]:
-    return denoisers() + denoisers3d() + grus() + recons() + recons3d()
+class EngineWrap(nn.Module):
+    """An engine's reconstruction path as a module: `forward(inputs)` = `engine.forward_function(dict(inputs))`, returning the
+    image when there is one, else the k-space.  The model and the sensitivity model are registered so that `.eval()` and the
+    module scans reach them."""
+
+    def __init__(self, engine, model, **extra):
+        super().__init__()
+        self.engine = [engine]          # not a sub-module: the engine is plain Python
+        self.model = model
+        for k, v in extra.items():
+            self.add_module(k, v)
+
+    def forward(self, inputs):
+        data = {k: (v.clone() if hasattr(v, "clone") else v) for k, v in inputs.items()}
+        data["is_ssl"] = torch.zeros(data["masked_kspace"].shape[0], dtype=torch.bool)
+        img, ksp = self.engine[0].forward_function(data)
+        if isinstance(img, (list, tuple)):
+            img = img[-1]
+        return img if img is not None else ksp
+
+
+def engines() -> list[Entry]:
+    """the reconstruction path (`forward_function`) of the supervised, SSL and JSSL engines around their models, with a
+    learned sensitivity-map refinement (per coil; 3-D: per slice or with a 3-D U-Net) — thorough tier"""
+    from direct.config.defaults import DefaultConfig, ModelConfig
+    from direct.nn.conjgradnet.conjgradnet import ConjGradNet
+    from direct.nn.conjgradnet.conjgradnet_engine import ConjGradNetEngine
+    from direct.nn.iterdualnet.iterdualnet import IterDualNet
+    from direct.nn.iterdualnet.iterdualnet_engine import IterDualNetEngine
+    from direct.nn.jointicnet.jointicnet import JointICNet
+    from direct.nn.jointicnet.jointicnet_engine import JointICNetEngine
+    from direct.nn.kikinet.kikinet import KIKINet
+    from direct.nn.kikinet.kikinet_engine import KIKINetEngine
+    from direct.nn.lpd.lpd import LPDNet
+    from direct.nn.lpd.lpd_engine import LPDNetEngine
+    from direct.nn.multidomainnet.multidomainnet import MultiDomainNet
+    from direct.nn.multidomainnet.multidomainnet_engine import MultiDomainNetEngine
+    from direct.nn.recurrentvarnet.recurrentvarnet import RecurrentVarNet
+    from direct.nn.recurrentvarnet.recurrentvarnet_engine import RecurrentVarNetEngine
+    from direct.nn.unet.config import Unet2dConfig
+    from direct.nn.unet.unet_2d import Unet2d, UnetModel2d
+    from direct.nn.unet.unet_3d import UnetModel3d
+    from direct.nn.unet.unet_engine import Unet2dEngine, Unet2dJSSLEngine, Unet2dSSLEngine
+    from direct.nn.varnet.varnet import EndToEndVarNet
+    from direct.nn.varnet.varnet_engine import EndToEndVarNetEngine, EndToEndVarNetJSSLEngine, EndToEndVarNetSSLEngine
+    from direct.nn.varsplitnet.varsplitnet import MRIVarSplitNet
+    from direct.nn.varsplitnet.varsplitnet_engine import MRIVarSplitNetEngine
+    from direct.nn.vsharp.vsharp import VSharpNet, VSharpNet3D
+    from direct.nn.vsharp.vsharp_engine import VSharpNet3DEngine, VSharpNetEngine
+    from direct.nn.xpdnet.xpdnet import XPDNet
+    from direct.nn.xpdnet.xpdnet_engine import XPDNetEngine
+
+    fwd, bwd = _ops()
+    u2 = unet_ok(2)
+
+    def wrap(engine_cls, model, cfg_model=None, ndim=2, sens="2d"):
+        cfg = DefaultConfig(model=cfg_model if cfg_model is not None else ModelConfig(model_name="zoo"))
+        extra = {}
+        if sens == "2d":
+            extra["sensitivity_model"] = UnetModel2d(2, 2, 2, 1, 0.0)
+        elif sens == "3d":
+            extra["sensitivity_model_3d"] = UnetModel3d(2, 2, 2, 1, 0.0)
+        eng = engine_cls(cfg, model, "cpu", fwd, bwd, **extra)
+        eng.ndim = ndim
+        return EngineWrap(eng, model, **extra)
+
+    E: list[Entry] = []
+
+    def add(name, build, min_hw=u2, kind="recon", coil_invariant=True, min_zhw=None, tol=1e-5):
+        kw = {"min_zhw": min_zhw} if min_zhw is not None else {}
+        E.append(Entry(f"engine/{name}", "engine", kind, build, "auto", lambda m, i: m(i), min_hw=min_hw,
+                       coil_invariant=coil_invariant, tags=("engine",), tier="thorough", tol=tol, **kw))
+
+    ucfg = Unet2dConfig(num_filters=2, num_pool_layers=2, image_initialization="sense")
+    for cls in (Unet2dEngine, Unet2dSSLEngine, Unet2dJSSLEngine):
+        add(cls.__name__, lambda cls=cls: wrap(cls, Unet2d(fwd, bwd, num_filters=2, num_pool_layers=2, dropout_probability=0.0,
+                                                            image_initialization="sense"), ucfg))
+    for cls in (EndToEndVarNetEngine, EndToEndVarNetSSLEngine, EndToEndVarNetJSSLEngine):
+        add(cls.__name__, lambda cls=cls: wrap(cls, EndToEndVarNet(fwd, bwd, num_layers=2, regularizer_num_filters=2,
+                                                                  regularizer_num_pull_layers=2)),
+            coil_invariant=(cls is EndToEndVarNetEngine))
+    add("VSharpNetEngine", lambda: wrap(VSharpNetEngine, VSharpNet(
+        fwd, bwd, num_steps=2, num_steps_dc_gd=2, image_model_architecture="unet", initializer_channels=(2, 2, 4),
+        initializer_dilations=(1, 1, 2), auxiliary_steps=-1, image_unet_num_filters=2, image_unet_num_pool_layers=2)))
+    for sens in ("2d", "3d"):
+        add(f"VSharpNet3DEngine/sens{sens}", lambda sens=sens: wrap(VSharpNet3DEngine, VSharpNet3D(
+            fwd, bwd, num_steps=2, num_steps_dc_gd=2, initializer_channels=(2, 2, 4), initializer_dilations=(1, 1, 2),
+            unet_num_filters=2, unet_num_pool_layers=2), ndim=3, sens=sens), kind="recon3d", min_zhw=unet3d_ok(2))
+    add("LPDNetEngine", lambda: wrap(LPDNetEngine, LPDNet(fwd, bwd, num_iter=2, num_primal=2, num_dual=2,
+                                                         primal_model_architecture="UNET", dual_model_architecture="CONV",
+                                                         primal_unet_num_filters=2, primal_unet_num_pool_layers=2,
+                                                         dual_conv_hidden_channels=4, dual_conv_n_convs=2)))
+    add("XPDNetEngine", lambda: wrap(XPDNetEngine, XPDNet(fwd, bwd, num_primal=2, num_dual=1, num_iter=2, normalize=True,
+                                                         mwcnn_hidden_channels=2, mwcnn_num_scales=2)), min_hw=both(u2, mwcnn_ok(2)))
+    add("KIKINetEngine", lambda: wrap(KIKINetEngine, KIKINet(fwd, bwd, image_model_architecture="UNET",
+                                                            kspace_model_architecture="CONV", num_iter=2, normalize=True,
+                                                            image_unet_num_filters=2, image_unet_num_pool_layers=2,
+                                                            kspace_conv_hidden_channels=4, kspace_conv_n_convs=2)))
+    add("JointICNetEngine", lambda: wrap(JointICNetEngine, JointICNet(
+        fwd, bwd, num_iter=2, image_unet_num_filters=2, image_unet_num_pool_layers=2, kspace_unet_num_filters=2,
+        kspace_unet_num_pool_layers=2, sens_unet_num_filters=2, sens_unet_num_pool_layers=2)), tol=1e-4)
+    add("MultiDomainNetEngine", lambda: wrap(MultiDomainNetEngine, MultiDomainNet(fwd, bwd, num_filters=4, num_pool_layers=2)))
+    add("RecurrentVarNetEngine", lambda: wrap(RecurrentVarNetEngine, RecurrentVarNet(
+        fwd, bwd, num_steps=2, recurrent_hidden_channels=4, recurrent_num_layers=2)))
+    add("IterDualNetEngine", lambda: wrap(IterDualNetEngine, IterDualNet(
+        fwd, bwd, num_iter=2, image_unet_num_filters=2, image_unet_num_pool_layers=2, kspace_unet_num_filters=2,
+        kspace_unet_num_pool_layers=2)))
+    add("ConjGradNetEngine", lambda: wrap(ConjGradNetEngine, ConjGradNet(
+        fwd, bwd, num_steps=2, denoiser_architecture="conv", image_init="sense", cg_iters=4, conv_hidden_channels=4,
+        conv_n_convs=2)), tol=1e-3)
+    add("MRIVarSplitNetEngine", lambda: wrap(MRIVarSplitNetEngine, MRIVarSplitNet(
+        fwd, bwd, num_steps_reg=2, num_steps_dc=2, image_model_architecture="unet", image_unet_num_filters=2,
+        image_unet_num_pool_layers=2)))
+    return E
+
+
+def zoo(thorough: bool = True) -> list[Entry]:
+    all_entries = denoisers() + denoisers3d() + grus() + recons() + recons3d() + engines()
+    return [e for e in all_entries if thorough or e.tier == "quick"]
 
 
 def expected_shape(e: Entry, n: int, coils: int, h: int, w: int, slices: int | None = None) -> tuple:
     return {
         "image": (n, h, w, 2), "kspace": (n, coils, h, w, 2), "chw": (n, e.out_ch, h, w), "mag": (n, h, w),
-        "image3d": (n, slices, h, w, 2), "czhw": (n, e.out_ch, slices, h, w),
+        "image3d": (n, slices, h, w, 2), "czhw": (n, e.out_ch, slices, h, w), "auto": None,
     }[e.out]
+
+
+def auto_shape_ok(shape: tuple, n: int, coils: int, h: int, w: int, slices: int | None = None) -> bool:
+    """engines return a magnitude image, a complex image or a k-space (documented layouts)"""
+    sp = (h, w) if slices is None else (slices, h, w)
+    return tuple(shape) in ((n,) + sp, (n,) + sp + (2,), (n, coils) + sp + (2,))
 
 
 def run_entry(e: Entry, model: nn.Module, inputs):
